@@ -433,6 +433,7 @@ class Item:
         if n_doc:
             self._log('R1', '%d doc-comment lines dropped' % n_doc)
         self.text = '\n'.join(out)
+        self.r26_let_chains()     # Verus takes no let chains; nesting is what one without an else branch means
         return self
 
     def r2(self):
@@ -732,6 +733,65 @@ class Item:
             raise ExtractError('%s: R20 the peekable iterator `%s` is used in a way the rule does not cover' % (self.name, p))
         self.text = t
         self._log('R20', 'char_indices().peekable() loop -> counted loop with running byte offset (%d peeks rewritten)' % k)
+        return self
+
+    def r26_let_chains(self):
+        """`if A && let P = E && B { X }` (no `else`, not itself an `else if`) -> `if A { if let P = E { if B { X } } }`.
+        Verus does not take let chains; the nesting is what the chain means when there is no else branch.  Chains with an else branch
+        are left alone (the run then stops at Verus' "not supported")."""
+        self._no_splice_yet()
+        t, pos, n = self.text, 0, 0
+        while True:
+            m = re.compile(r'(?<![\w.])if\s+(?=[^\n]*\blet\b|[^{]*?&&\s*let\b)').search(t, pos)
+            if not m:
+                break
+            pos = m.end()
+            # not in a comment / string, and not an `else if`
+            line_start = t.rfind('\n', 0, m.start()) + 1
+            if '//' in t[line_start:m.start()] or re.search(r'\belse\s*$', t[:m.start()]):
+                continue
+            # the condition runs to the first `{` at bracket depth 0
+            j, depth, parts, last = m.end(), 0, [], m.end()
+            while j < len(t):
+                k = lex_skip(t, j)
+                if k is not None:
+                    j = k
+                    continue
+                ch = t[j]
+                if ch in '([':
+                    depth += 1
+                elif ch in ')]':
+                    depth -= 1
+                elif ch == '{' and depth == 0:
+                    break
+                elif t.startswith('&&', j) and depth == 0:
+                    parts.append(t[last:j].strip())
+                    j += 2
+                    last = j
+                    continue
+                j += 1
+            if j >= len(t):
+                break
+            parts.append(t[last:j].strip())
+            if len(parts) < 2 or not any(p.startswith('let ') for p in parts):
+                continue
+            e = match_brace(t, j)
+            after = t[e:e + 40].lstrip()
+            if after.startswith('else'):
+                continue
+            block = t[j:e]
+            nested = ''.join('if %s { ' % p for p in parts[:-1]) + 'if %s ' % parts[-1] + block + ' }' * (len(parts) - 1)
+            t = t[:m.start()] + nested + t[e:]
+            pos = m.start() + 3
+            n += 1
+        if n:
+            self.text = t
+            self._log('R26', '%d let chain(s) without an else branch nested' % n)
+        # R27: a one-element slice pattern on a Vec -> length test and index (Verus takes no slice patterns)
+        t2, k = re.subn(r'\bif let \[(\w+)\] = (\w+(?:\.\w+)*)\.as_slice\(\) \{', r'if \2.len() == 1 { let \1 = &\2[0];', self.text)
+        if k:
+            self.text = t2
+            self._log('R27', '%d one-element slice pattern(s) `if let [x] = v.as_slice()` -> `if v.len() == 1 { let x = &v[0];`' % k)
         return self
 
     def r21(self, fn_name, ordinal):
